@@ -221,7 +221,7 @@ def run(oc, tier, seed, model_available, escalate):
         if kindd != "pristine":
             oc.distinct.add(lines[-1])
     # ---- 4. end to end: metadata damaged within the intra bound, real tools
-    nt = 8 if tier == "quick" else 120
+    nt = 24 if tier == "quick" else 240
     d = os.path.join(common.scratch(), "c09")
     for it in range(nt):
         shutil.rmtree(d, ignore_errors=True)
@@ -231,6 +231,12 @@ def run(oc, tier, seed, model_available, escalate):
         if not P.well_formed():
             continue
         tree = es.gen_tree(rng, P, nfiles=rng.randint(1, 3), maxsize=300)
+        if it % 2 == 1:
+            # small blocks: the size text (4-5 digits) and the path span several intra blocks
+            P = eu.Params(tool=["header", "whole"][(it // 2) % 2], algo=rng.choice([3, 4]), mbs=rng.choice([6, 8, 10, 12]), size=rng.choice([64, 300]),
+                          r1=0.5, r2=0.5, r3=0.5, ri=rng.choice([0.5, 1.0]), hash=rng.choice(["minimd5", "shortmd5"]))
+            tree = {"a.bin": bytes(rng.randrange(256) for _ in range(rng.choice([1000, 1234, 12000]))), "sub/bb.dat": bytes(rng.randrange(256) for _ in range(1500))}
+            oc.count("end-to-end: size text spanning several intra blocks")
         if not tree:
             continue
         root = os.path.join(d, "root")
